@@ -1,5 +1,6 @@
 import MaltModel.Conv.CtxWf
 import MaltModel.Conv.Template
+import MaltModel.Conv.SrcClass
 /- Executable form of the hypothesis "every bound node was context-well-formed where it came from" (evaluated by the
 driver on the real bindings of every captured `templates.replace` call). -/
 namespace Malt.Conv.Template
@@ -15,5 +16,12 @@ def bindingWfB : Binding → Bool
   | .stmts ss => okSs ss
 
 def bindingsWfB (b : Bindings) : Bool := b.all fun p => bindingWfB p.2
+
+/-- how often `nm` occurs in the template as a `Name` placeholder / as a parameter name -/
+def nameOcc (nm : String) (t : List Stmt) : Nat :=
+  ((Malt.Conv.SrcClass.subSs t).filter fun e => match e with | .name _ n _ => n == nm | _ => false).length
+
+def argOcc (nm : String) (t : List Stmt) : Nat :=
+  ((Malt.Conv.SrcClass.subSs t).filter fun e => match e with | .arg _ n _ => n == nm | _ => false).length
 
 end Malt.Conv.Template
